@@ -241,6 +241,12 @@ struct Input {
     field: String,
     cval: String,
     len: usize,
+    /// concrete value, field width, original value, rem (elements that fit), unit -- re-computed by TLC
+    cv: u64,
+    w: u8,
+    orig: u64,
+    rem: u64,
+    unit: u64,
 }
 
 #[derive(Clone, Debug, Default)]
@@ -360,6 +366,10 @@ fn concretise(sym: &str, f: &Field, orig: u64, len: usize) -> Option<u64> {
     }
 }
 
+fn limbs(v: u64) -> Value {
+    json!([(v >> 48) & 0xFFFF, (v >> 32) & 0xFFFF, (v >> 16) & 0xFFFF, v & 0xFFFF])
+}
+
 fn norm_field(name: &str) -> String {
     // "block[12].flags" -> "block[#].flags"
     normalise_digits(name)
@@ -378,6 +388,11 @@ fn expand(seeds: &[Seed], plan: &[Value], thorough: bool) -> Vec<Input> {
     for (si, s) in seeds.iter().enumerate() {
         let len = s.bytes.len();
         let mk = |op: Value, p: &Value, field: String, cval: String, ilen: usize| Input {
+            cv: u64::from_str_radix(&cval, 16).unwrap_or(0),
+            w: 0,
+            orig: 0,
+            rem: 0,
+            unit: 1,
             fmt: s.format,
             seed_idx: si,
             op,
@@ -392,6 +407,7 @@ fn expand(seeds: &[Seed], plan: &[Value], thorough: bool) -> Vec<Input> {
         let origs: Vec<u64> = s.fields.iter().map(|f| mutate::read_field(&s.bytes, f)).collect();
         let mut seen_set: HashSet<(usize, u64)> = HashSet::new();
         let mut seen_tag: HashSet<(usize, String)> = HashSet::new();
+        let mut seen_pair: HashSet<(usize, u64, u64)> = HashSet::new();
         let mut cuts: BTreeMap<usize, (i64, String)> = BTreeMap::new(); // position -> (plan idx in `plan`, field)
         for (pi, p) in plan.iter().enumerate() {
             let arch = gs(p, "arch");
@@ -411,7 +427,12 @@ fn expand(seeds: &[Seed], plan: &[Value], thorough: bool) -> Vec<Input> {
                         }
                         if let Some(v) = concretise(val, f, origs[fi], len) {
                             if seen_set.insert((fi, v)) {
-                                out.push(mk(json!({"k":"set","f":fi,"val":v.to_string()}), p, norm_field(&f.name), format!("{v:x}"), len));
+                                let mut i = mk(json!({"k":"set","f":fi,"val":v.to_string()}), p, norm_field(&f.name), format!("{v:x}"), len);
+                                i.w = f.width;
+                                i.orig = origs[fi];
+                                i.rem = (len.saturating_sub(f.base) / f.unit.max(1)) as u64;
+                                i.unit = f.unit.max(1) as u64;
+                                out.push(i);
                             }
                         }
                     }
@@ -486,6 +507,28 @@ fn expand(seeds: &[Seed], plan: &[Value], thorough: bool) -> Vec<Input> {
                         }
                         let what = format!("{}:{}", normalise_digits(&q.name), seed::tag_at(&s.bytes, q.items[p0].0));
                         out.push(mk(json!({"k":"chunk","seq":qi,"op":role,"pos":p0}), p, what, format!("{p0:x}"), len));
+                    }
+                }
+                "pair" => {
+                    // sibling fields = consecutive inventory entries whose names share the prefix up to the
+                    // last '.' ("hdr.vertices.count" / "hdr.vertices.offset", "mip[0].offset" / "mip[0].size")
+                    let prefix = |n: &str| n.rsplit_once('.').map(|x| x.0.to_string()).unwrap_or_default();
+                    for fi in 0..s.fields.len().saturating_sub(1) {
+                        let (fa, fb) = (&s.fields[fi], &s.fields[fi + 1]);
+                        if fa.role == "tag" || fb.role == "tag" || fa.role == "term" || fb.role == "term" {
+                            continue;
+                        }
+                        let pa = prefix(&fa.name);
+                        if pa.is_empty() || pa != prefix(&fb.name) {
+                            continue;
+                        }
+                        // `role` carries the symbol for the first field, `val` the one for the second
+                        let (Some(va), Some(vb)) = (concretise(role, fa, origs[fi], len), concretise(val, fb, origs[fi + 1], len)) else { continue };
+                        if !seen_pair.insert((fi, va, vb)) {
+                            continue;
+                        }
+                        let what = format!("{}+{}", norm_field(&fa.name), norm_field(&fb.name).rsplit_once('.').map(|x| x.1.to_string()).unwrap_or_default());
+                        out.push(mk(json!({"k":"set2","f":fi,"val":va.to_string(),"g":fi + 1,"val2":vb.to_string()}), p, what, format!("{va:x}"), len));
                     }
                 }
                 "havoc" => {
@@ -622,8 +665,17 @@ fn parent() {
     let a = args();
     let plan = read_cases(&a.cases);
     let th = thorough();
-    let exe = std::env::current_exe().unwrap_or_else(|e| tool_error(&format!("current_exe: {e}")));
     let sc = Scratch::new("c05");
+    // children are started from (and return addresses are resolved against) a private copy of this
+    // executable: a concurrent `cargo build` replacing target/debug/c05 must not mix two binaries
+    let exe = {
+        let me = std::env::current_exe().unwrap_or_else(|e| tool_error(&format!("current_exe: {e}")));
+        let copy = sc.file("c05-worker");
+        match std::fs::copy(&me, &copy) {
+            Ok(_) => copy,
+            Err(_) => me,
+        }
+    };
     let only: Option<HashSet<String>> = std::env::var("C05_FORMATS").ok().map(|s| s.split(',').map(|x| x.to_string()).collect());
 
     // 1. seeds
@@ -657,6 +709,11 @@ fn parent() {
             field: "-".into(),
             cval: "0".into(),
             len: s.bytes.len(),
+            cv: 0,
+            w: 0,
+            orig: 0,
+            rem: 0,
+            unit: 1,
         });
     }
     // C05_ARCH=havoc,prefix,... restricts the plan (used by the saturation runs of selftest/C05/saturate.py)
@@ -761,7 +818,16 @@ fn parent() {
         let s = &seeds[inp.seed_idx];
         let res = agg(results.get(&n).unwrap_or(&Vec::new()));
         if inp.arch == "base" {
-            baseline.insert(inp.seed_idx, res.clone());
+            // baseline = the best outcome per entry point on the unmutated seed (MPQ's read_file is
+            // also called with an absent name, which is an error by design)
+            let raw = results.get(&n).cloned().unwrap_or_default();
+            let mut bl = res.clone();
+            for b in bl.iter_mut() {
+                if let Some(best) = raw.iter().filter(|e| e.entry == b.entry).min_by_key(|e| rank(&e.class)) {
+                    b.class = best.class.clone();
+                }
+            }
+            baseline.insert(inp.seed_idx, bl);
         }
         if inp.seed_idx != cur_seed || since >= 300 {
             cur_seed = inp.seed_idx;
@@ -782,6 +848,8 @@ fn parent() {
             tr.ev(json!({"ev":"Input","case":inp.plan.to_string(),"n":n,"entry":e.entry,"format":s.format,"seed":s.name,
                 "arch":inp.arch,"role":inp.role,"val":inp.val,"field":inp.field,"cval":inp.cval,
                 "len":inp.len,"outcome":e.class,"key":key,"detail":detail,
+                "cv":limbs(inp.cv),"w":inp.w,"orig":limbs(inp.orig),"rem":inp.rem.min(0x7FFF_FFFF),"unit":inp.unit.min(0x7FFF_FFFF),
+                "slen":s.bytes.len(),
                 "alloc":kib(e.maxreq),"peak":kib(e.peak)}));
             let huge = e.maxreq > worker::alloc_limit(inp.len);
             if rank(&e.class) >= 2 || huge {
